@@ -255,3 +255,5 @@ var quietLogger = slog.New(slog.NewTextHandler(io.Discard, &slog.HandlerOptions{
 func (r *Reporter) exhaustiveOK() bool { r.mu.Lock(); defer r.mu.Unlock(); return r.exhaustive }
 
 func sscan(s, f string, a ...any) { fmt.Sscanf(s, f, a...) }
+
+func sprint(a ...any) string { return fmt.Sprint(a...) }
